@@ -427,12 +427,14 @@ def CODELENS_US(fill):
 CODELENS_ASSUME = ["concrete code-length code {0:2, 1:2, 2:3, 16:3, 17:3, 18:3 bits} installed directly in codes_codes", "inflate_table -> Success stub (tables "
                    "are not the subject)", "<[u16]>::fill -> plain element loop (bounded by the largest repeat count of the code)",
                    "CBMC --max-field-sensitivity-array-size 2048"] + STD_STUBS[:0]
-for _s, _r, _rng, _f in ((16, 5, "3..=6", 8), (17, 7, "3..=10", 12), (18, 20, "11..=138", 140)):
-    h("ki5c_codelens_%d_item" % _s, BLK, BP, ["C03", "C02"], kernel="KI5c", expect_s=900, timeout=2400, weight=2, mem_gb=16, unwindset=CODELENS_US(_f), cbmc_args=FS_ARRAYS,
-      functions=["State::dispatch (mode CodeLens, one run-length item with code %d)" % _s],
-      bounds="HLIT 257 + HDIST 30, %d lengths outstanding, the concrete code in the register, extra bits from one symbolic input byte: every repeat "
-             "count %s (short of, exactly at, past HLIT+HDIST); stored values, nothing beyond them, verdict" % (_r, _rng),
-      assumptions=CODELENS_ASSUME)
+for _s, _r, _f in ((16, 5, 8), (17, 7, 12), (18, 20, 24)):
+    for _k in ("short", "exact", "over"):
+        h("ki5c_codelens_%d_%s" % (_s, _k), BLK, BP, ["C03", "C02"], kernel="KI5c", expect_s=170, timeout=1200, weight=2, mem_gb=16, unwindset=CODELENS_US(_f), cbmc_args=FS_ARRAYS,
+          functions=["State::dispatch (mode CodeLens, one run-length item with code %d)" % _s],
+          bounds="HLIT 257 + HDIST 30, %d lengths outstanding, the concrete code in the register, concrete extra bits making the run end one %s HLIT+HDIST; "
+                 "symbolic previous length and end-of-block length: stored values, nothing beyond them, verdict (accepted / 'repeat past the end' / "
+                 "'missing end-of-block')" % (_r, {"short": "short of", "exact": "exactly at", "over": "past"}[_k]),
+          assumptions=CODELENS_ASSUME + ["repeat count concrete per instance (a symbolic count makes the progress counter symbolic and symex does not finish)"])
     h("ki5c_codelens_%d_suspend" % _s, BLK, BP, ["C04", "C03"], kernel="KI5c", expect_s=170, timeout=1200, weight=2, mem_gb=16, unwindset=CODELENS_US(_f), cbmc_args=FS_ARRAYS,
       functions=["State::dispatch (mode CodeLens, code %d with its extra bits missing)" % _s],
       bounds="the concrete code in the register, no input: the call suspends with the register, progress counter and lengths untouched",
@@ -510,7 +512,7 @@ QUICK = {
     "C02": ["ki1_bitreader_refill_model", "ki2_copy_match_twin_small", "ki2_extend_from_window_twin", "ki3_window_extend_ring",
             "ki5b_extra", "ki5b_name_entry_length", "ki5b_comment_entry_length", "ki5b_name", "ki5c_stored", "ki5d_len_step", "ki6_fast_loop_room", "ki7_inflate_copyblock",
             "kb1_back_lit1_d16", "ki5c_lenlens_order"],
-    "C03": ["ki5d_match_guard_dispatch", "ki5d_match_guard_friends", "ki5a_head_n2", "ki5a_head_n6", "ki5c_typedo_b3_i0", "ki5c_typedo_b0_i1", "ki5c_stored", "ki5c_table",
+    "C03": ["ki5c_codelens_16_exact", "ki5c_codelens_17_exact", "ki5c_codelens_18_exact", "ki5c_codelens_18_over", "ki5d_match_guard_dispatch", "ki5d_match_guard_friends", "ki5a_head_n2", "ki5a_head_n6", "ki5c_typedo_b3_i0", "ki5c_typedo_b0_i1", "ki5c_stored", "ki5c_table",
             "ki5c_lenlens_order", "ki5d_len_step", "ki5d_dist_step_friends", "ki5d_fixed_tables_are_rfc", "ki5e_check_zlib",
             "ki5e_length_gzip", "ki5b_hcrc"],
     "C04": ["ki1_bitreader_split", "ki5c_copyblock_resume", "ki5c_stored_trees", "ki5d_match_guard_dispatch", "ki5c_codelens_17_suspend", "ki5c_lenlens_order", "ki5b_extra", "ki5d_dist_step_friends",
